@@ -277,16 +277,13 @@ Theorem C08_blob_refusals : blob_store FNotBytes = Err ValueErr /\ blob_store (F
 Proof. exact blob_rejections. Qed.
 Print Assumptions C08_blob_refusals.
 
-(* refusals of add_file as a whole (name_refusal: "" TypeError, NUL ValueError, "." KeyError): a refused name wins over a
-   refused content; definitional unfolding of blob_add, tied to the code by the generated name x content combinations *)
-Theorem C08_blob_add_spec : forall name x,
-  blob_add name x =
-    match name_refusal name with
-    | Some e => Err e
-    | None => match x with FNotBytes | FBytes [] => Err ValueErr | FBytes b => Ok b end
-    end.
-Proof. exact blob_add_spec. Qed.
-Print Assumptions C08_blob_add_spec.
+(* add_file as a whole (blob_add transcribes the order of the refusals in write_file_name_data; tied to the code by the
+   generated name x content combinations): the blob is stored exactly when the name is acceptable (name_refusal: not "",
+   no NUL, not ".") and the content is a non-empty byte string *)
+Theorem C08_blob_add_ok_iff : forall name x b,
+  blob_add name x = Ok b <-> name_refusal name = None /\ x = FBytes b /\ b <> [].
+Proof. exact blob_add_ok_iff. Qed.
+Print Assumptions C08_blob_add_ok_iff.
 
 Example C08_blob_nonvacuous :
   node_read (node_write (node_write node0 [102; 46; 100]%N [1; 0; 255]%N) [102; 46; 100]%N [7]%N) = Ok (Some ([102; 46; 100]%N, [7]%N)).
